@@ -28,6 +28,7 @@ def run(c, chk):
     model = pm.ParserModel(c)
     lex = c.lex
     dfa = lex.dfa
+    trailing_trim(c, chk, 'R15.5')
     chk.analysed = {'parser_states': len(model.states), 'lexer_rules': dfa.num_rules}
     COMMENT = pm.TOKENS['COMMENT']
 
@@ -231,3 +232,80 @@ def printer_emits(c, chk):
         return
     chk.ok('R15.4', 'printer', 'on all %d paths that write it the annotation comes first, after cfg_indent(fp, indent), as "/*" + the stored text + "*/"' % seen)
 
+
+
+def _isspace_of(cn):
+    """(character value) if cn is the test  (*__ctype_b_loc())[ch] & _ISspace  else None"""
+    if cn[0] != 'icmp' or cn[3] != sym.C0:
+        return None
+    a = cn[2]
+    if not (a[0] == 'bin' and a[1] == 'and' and sym.is_const(a[3]) and a[3][1] == 8192):
+        return None
+    t = a[2]
+    while t[0] == 'bin' and t[1] in ('zext', 'sext', 'trunc'):
+        t = t[2]
+    if t[0] == 'ld' and t[1][0] == 'idx' and sym.mentions(t[1][1], lambda v: v[0] == 'call' and v[1] == '__ctype_b_loc'):
+        ch = t[1][2]
+        while ch[0] == 'bin' and ch[1] in ('zext', 'sext', 'trunc'):
+            ch = ch[2]
+        return ch
+    return None
+
+
+def trailing_trim(c, chk, rid):
+    """the comment text handed to the parser does not end in white space: where trim_whitespace() stores the terminator,
+    the byte in front of it was tested and found not to be white space (or nothing is left to trim).  Otherwise every
+    print/parse cycle of an annotation ("/* text */") adds a blank."""
+    from .. import bufsize
+    chk.rule(rid, 'comment text is cut right after its last non-blank byte: the terminator goes where the byte before it was tested non-blank')
+    f = c.lexer.funcs.get('trim_whitespace')
+    if f is None:
+        raise report.Broken('trim_whitespace() not found')
+    ex = sym.Explorer([c.lexer], max_visits=3, mod_sets=c.lex.mod_sets)
+    n = 0
+    bad = None
+    for p in ex.explore(f):
+        if p.end != 'ret':
+            continue
+        cuts = [e for e in p.events if e.kind == 'store' and e.val == sym.C0 and e.addr[0] == 'idx' and e.addr[1] == ('p', 'str')]
+        if not cuts:
+            continue
+        n += 1
+        K = bufsize.lin(cuts[-1].addr[2])
+        if K is None:
+            bad = bad or (p, 'at a position the analysis cannot express')
+            continue
+        ok = False
+        nonspace = set()
+        nonzero = set()
+        for cn, t, _ in p.assume:
+            ch = _isspace_of(cn)
+            if ch is not None and ch[0] == 'ld' and ch[1][0] == 'idx' and ch[1][1] == ('p', 'str'):
+                truth = ((cn[1] == 'ne') == t)
+                x = bufsize.lin(ch[1][2])
+                if x is not None and not truth:
+                    nonspace.add(repr(x))
+            if cn[0] == 'icmp' and cn[1] in ('eq', 'ne') and cn[3] == sym.C0 and cn[2][0] == 'ld' and cn[2][1][0] == 'idx' and cn[2][1][1] == ('p', 'str'):
+                if (cn[1] == 'ne') == t:
+                    x = bufsize.lin(cn[2][1][2])
+                    if x is not None:
+                        nonzero.add(repr(x))
+            # nothing left to trim: the loop bound (position > 1) failed for this position
+            if cn[0] == 'icmp' and cn[1] in ('ugt', 'sgt') and cn[3] == ('c', 1) and not t:
+                x = bufsize.lin(cn[2])
+                if x is not None and x.eq(K):
+                    ok = True
+        if repr(K.add(bufsize.Lin(-1))) in nonspace:
+            ok = True
+        if repr(K) in nonspace and repr(K) in nonzero:
+            ok = True         # a non-blank character right at the cut (the scanner never passes such a length)
+        if not ok:
+            bad = bad or (p, 'although the byte in front of that position was not shown to be non-blank')
+    if bad:
+        p, why = bad
+        chk.fail(rid, 'trailing-blanks', c.where(f), 'trim_whitespace() ends the text %s: trailing white space of a comment survives, and an annotation '
+                 'grows by a blank every time it is printed ("/* text */") and read back' % why, witness=['path condition: ' + ' && '.join(
+                     ('' if t else '!') + sym.render(cn)[:80] for cn, t, _ in p.assume[-4:])])
+    elif n:
+        chk.ok(rid, 'trim_whitespace: %d cutting paths' % n, 'the terminator is stored right after a byte tested non-blank, or at the minimum length', sample=True)
+    chk.floor('%s cutting paths of trim_whitespace' % rid, n, 2)
